@@ -209,6 +209,20 @@ func dischargeIndex(ff *FuncFacts, blk *ssa.BasicBlock, base, idx ssa.Value) Dis
 	bt, it := ff.Term(base), ff.Term(idx)
 	ln := lenTermOf(bt)
 	fs := ff.FactsAt(blk)
+	// the position delivered by `for i := range s` over a string: 0 <= i < len(s)
+	if ex, ok := stripConv(idx).(*ssa.Extract); ok && ex.Index == 1 {
+		if nx, ok := ex.Tuple.(*ssa.Next); ok && nx.IsString {
+			if rg, ok := nx.Iter.(*ssa.Range); ok {
+				sl := &Term{Op: "call", Sym: "builtin:len", Args: []*Term{ff.Term(rg.X)}}
+				if sl.String() == ln.String() {
+					return Discharge{true, "position of a range over the string whose length sizes the base", ""}
+				}
+				if ok, why := factsEntailLE(fs, sl, ln, 0); ok {
+					return Discharge{true, "position of a range over a string no longer than the base: " + why, ""}
+				}
+			}
+		}
+	}
 	if !nonNegative(it, idx.Type()) {
 		// an explicit lower-bound fact?
 		ok := false
